@@ -11,6 +11,8 @@ from vlib.ops import Engine, engine_known, flush_excluded
 
 ID = "C01"
 LEVEL = "exploration"
+TECHNIQUE = 'stateful property-based testing (Hypothesis op histories) with structural invariants from an independent walker'
+LEVEL_TEXT = "exploration: random op histories (swarm profiles, plain/typed, 10 data flavours) with the well-formedness predicate evaluated after every step by a walker that does not use nutree's iterators; finds history-dependent corruption, proves nothing beyond the cases run"
 RULE = (
     "case = (initial tree spec <= 15 nodes with clones and equal-comparing siblings, data flavour (str, int, tuple, dataclass, DictWrapper, callback-keyed objects, explicit-id dicts), second tree as copy source, "
     "history of <= 40/80 ops drawn from a swarm profile over add / append / prepend / sibling inserts / node and tree "
